@@ -64,7 +64,8 @@ PLANS = {
             enum_iter("miri", 16, 2, False, extra=2, bare=True, tiers=("quick",)), enum_iter("miri", 16, 4, False, extra=2, bare=True, tiers=("thorough",)),
             hist("order", 2, 480000, 3000000)],
     "C13": [job("bigcap", "native", 2, [], budget={"quick": 300000, "thorough": 3000000}, budget_arg="max-n"), hist("big", 1, 40000, 300000), job("churn", "native", 4, [], budget={"quick": 1000000, "thorough": 25000000}, budget_arg="ops"), job("interleave", "native", 2, [], budget={"quick": 200000, "thorough": 3000000}), hist("capacity", 14, 480000, 7500000, reports_to=("C13",)), hist("realloc", 2, 480000, 3000000)],
-    "C14": [job("bigcap", "native", 1, [], budget={"quick": 300000, "thorough": 3000000}, budget_arg="max-n"), hist("big", 1, 40000, 300000), hist("realloc", 1, 480000, 3000000), job("interleave", "native", 2, [], budget={"quick": 200000, "thorough": 3000000}), hist("clone", 12, 480000, 7500000), hist("mixed", 2, 480000, 3000000),
+    "C14": [job("clone_refusal", "native", 120, ["--case", "{shard}"], abort_ok=True, prop="C14"),
+            job("bigcap", "native", 1, [], budget={"quick": 300000, "thorough": 3000000}, budget_arg="max-n"), hist("big", 1, 40000, 300000), hist("realloc", 1, 480000, 3000000), job("interleave", "native", 2, [], budget={"quick": 200000, "thorough": 3000000}), hist("clone", 12, 480000, 7500000), hist("mixed", 2, 480000, 3000000),
             hist("clone", 6, 100000, 2000000, mode="asan", reports_to=MEM),
             hist("clone", 16, 300, 4000, mode="miri", reports_to=MEM, extra=["--bare", "1"])],
     "C15": [hist("big", 1, 40000, 300000), hist("realloc", 1, 480000, 3000000), enum_retain("native", 8, 9, random=300, tiers=("quick",)), enum_retain("native", 16, 12, random=4000, tiers=("thorough",)),
@@ -76,7 +77,7 @@ PLANS = {
     "C17": [enum_iter("native", 8, 6, True, random=300, extra=1, tiers=("quick",)), enum_iter("native", 16, 9, True, random=3000, extra=1, tiers=("thorough",)),
             enum_iter("asan", 4, 5, True, extra=1, tiers=("quick",), asan_options=ASAN_NOLEAK), enum_iter("asan", 12, 7, True, extra=1, random=1000, tiers=("thorough",), asan_options=ASAN_NOLEAK),
             enum_iter("miri", 16, 2, True, extra=1, bare=True, tiers=("quick",), miri_flags=LEAK_OK_MIRI), enum_iter("miri", 16, 4, True, extra=1, bare=True, tiers=("thorough",), miri_flags=LEAK_OK_MIRI)],
-    "C18": [job("autotraits", "native", 1, []), job("exercise", "native", 1, [], bin="lruverif_c18", compile_verdict=True),
+    "C18": [job("neg_compile", "native", 1, [], neg_compile=True, prop="C18"), job("autotraits", "native", 1, []), job("exercise", "native", 1, [], bin="lruverif_c18", compile_verdict=True),
             job("sharedref_threads", "native", 2, ["--threads", "4"], budget={"quick": 40, "thorough": 2000}, budget_arg="states", reports_to=("C18", "C19")),
             job("sharedref_threads", "miri", 4, ["--threads", "3"], budget={"quick": 2, "thorough": 30}, budget_arg="states", reports_to=("C18", "C19"))],
     "C19": [job("sharedref", "native", 16, ["--threads", "4"], budget={"quick": 400, "thorough": 6000}, budget_arg="states", reports_to=("C19",)),
@@ -107,12 +108,12 @@ FLOORS = {
     "C07": {"evaluations": {"quick": 300000, "thorough": 10000000}, "distinct": 300, "reallocations": {"quick": 10000, "thorough": 300000}, "max:max_len": {"quick": 100, "thorough": 1000}},
     "C12": {"evaluations": {"quick": 20000, "thorough": 200000}, "distinct": 5000, "c12_past_exhaustion": 1000, "c12_dropped_after_prefix": 1000},
     "C13": {"evaluations": {"quick": 50000, "thorough": 1500000}, "distinct": 60, "c13_auto_growth": 500, "c13_shrunk": 500, "c13_alloc_failures_injected": 200, "c13_try_reserve_err_capacity": 200, "c13_with_capacity_inserts": 500, "c13_churn_ops": {"quick": 3000000, "thorough": 90000000}, "c13_bigcap_constructions_20000_plus": 20},
-    "C14": {"evaluations": {"quick": 100000, "thorough": 3000000}, "distinct": 100, "c14_ops_with_sibling_caches": 50000},
+    "C14": {"evaluations": {"quick": 100000, "thorough": 3000000}, "distinct": 100, "c14_ops_with_sibling_caches": 50000, "sum:c14_clone_re": 100},
     "C15": {"evaluations": {"quick": 2000, "thorough": 20000}, "distinct": 60},
     "C16": {"evaluations": {"quick": 200000, "thorough": 5000000}, "distinct": 1000, "each:c16_fired_": 20, "c16_hash_panic_in_explicit_rebuild": 1000, "c16_hash_panic_in_growing_insert": 300,
             "c16_further_use_ops": 100000, "c16_dropped_after": 100000, "c16_big_state_injections": 40, "c16_allocation_refused_inside_infallible_rebuild": 2000, "c16_callback_panic_with_allocation_refusal_armed": 2000, "c16_remutate_after_panicked_mutate": 5000},
     "C17": {"evaluations": {"quick": 10000, "thorough": 100000}, "distinct": 2000, "sum:c17_forgot_": 2000, "c17_forgot_drain": 300, "c17_further_use_ops": 2000, "c17_caches_dropped_after_forget": 1000},
-    "C18": {"evaluations": 128, "distinct": 128, "c18_table_rows": 64, "c18_rows_expected_send": 8, "c18_rows_expected_not_send": 56, "c18_moved_across_threads": 20, "c18_nonstatic_exercise_runs": 1, "c18_iterator_autotrait_rows": 112},
+    "C18": {"evaluations": 128, "distinct": 128, "c18_table_rows": 64, "c18_rows_expected_send": 8, "c18_rows_expected_not_send": 56, "c18_moved_across_threads": 20, "c18_nonstatic_exercise_runs": 1, "c18_iterator_autotrait_rows": 112, "c18_programs_that_must_not_compile": 20, "c18_programs_rejected_by_the_borrow_checker": 20},
     "C19": {"evaluations": {"quick": 5000, "thorough": 80000}, "distinct": 100, "c19_shared_ops_under_write_trap": 500000, "c19_thread_runs_under_write_trap": 10000, "c19_state_empty": 50, "c19_state_single": 50,
             "c19_state_tombstoned": 50, "c19_state_const_hasher": 200, "c19_thread_runs_race_detector": 20, "max:c19_max_len": 30, "c19_deep_states": 50, "max:c19_deep_state_max_colliding_len": 4000},
     "C20": {"evaluations": {"quick": 300000, "thorough": 10000000}, "distinct": 150, "c20_rebuilds": 2000, "c20_with_departures": 5000, "c20_scale_ops_n16384": 5000, "c20_scale_ops_n1024": 5000, "c20_scale_rebuilds": 500, "c20_scale_mass_ejections": 1000, "c20_giant_rebuilds": 3, "max:c20_giant_rebuild_max_len": 4500000, "max:c20_scale_mass_ejection_max_departures": 10000},
